@@ -152,7 +152,13 @@ class DecoratorRegistry:
                 State.set(test_handshake[0], test_handshake[1])
         await dm.start()
 
-        ret = await dm.wait_until()
+        try:
+            ret = await dm.wait_until()
+        finally:
+            # a dispatch stops the manager before it resolves the wait; if the waiting task is
+            # cancelled instead, the temporary triggers must not stay subscribed
+            if dm.status is DecoratorManagerStatus.RUNNING:
+                await dm.stop()
 
         return ret
 
